@@ -3,6 +3,7 @@ package main
 import (
 	"go/constant"
 	"go/token"
+	"go/types"
 
 	"golang.org/x/tools/go/ssa"
 )
@@ -226,4 +227,12 @@ func variadicElems(v ssa.Value) []ssa.Value {
 		}
 	}
 	return out
+}
+
+// deref returns the element type of a pointer type, and t itself otherwise.
+func deref(t types.Type) types.Type {
+	if p, ok := t.Underlying().(*types.Pointer); ok {
+		return p.Elem()
+	}
+	return t
 }
